@@ -9,7 +9,8 @@
       use_enum_value         at the head of _diff when the two TYPES differ: each Enum side is
                              replaced by its value and the type check is SKIPPED, so the comparer
                              chosen by the type of t1 meets an operand of any type (finding
-                             C11-ENUM-TYPE: the leaf function returns Err where the code raises);
+                             C11-ENUM-TYPE: the leaf function returns Err where the code raises); None on BOTH sides after
+                             the substitution is not reported (C11-ENUM-NONE, fixed in /repo by c9e614d);
                              two members of one class are compared by _diff_enum (children
                              .name / .value); as dict keys only under key cleaning, and then the
                              value is taken as it is (C11-ENUM-KEY); in DeepHash before hashing
@@ -442,7 +443,7 @@ Definition leaf_core (a b : atom) (p1 p2 : path) : res (list entry) :=
     else
       let a' := unwrap a in
       let b' := unwrap b in
-      if is_none a' || is_none b' then Ok (rep_atoms KValue p1 p2 a' b')
+      if is_none a' || is_none b' then Ok (if is_none a' && is_none b' then [] else rep_atoms KValue p1 p2 a' b')   (* c9e614d: only when t1 is not t2 *)
       else if o_nan F && is_nan a' && str_is_nan b' then Ok []
       else dispatch false a' b' p1 p2.
 
